@@ -10,6 +10,7 @@ package main
 import (
 	"bytes"
 	"context"
+	"crypto/tls"
 	"encoding/hex"
 	"encoding/json"
 	"errors"
@@ -27,6 +28,7 @@ import (
 	"connectrpc.com/conformance/internal/tracer"
 	"connectrpc.com/conformance/internal/verifharness/gen"
 	"golang.org/x/net/http2"
+	"golang.org/x/net/http2/h2c"
 	"golang.org/x/net/http2/hpack"
 )
 
@@ -51,6 +53,110 @@ func init() {
 		}
 		return map[string]any{"out": out}
 	})
+	gen.RegisterOp("c15", "live", func(c *gen.Ctx, raw json.RawMessage) any {
+		in := gen.Into[c15LiveIn](raw)
+		return c15Live(&in)
+	})
+}
+
+// ---------------------------------------------------------------- real stacks over loopback
+
+type c15LiveReq struct {
+	Name     string `json:"name"`
+	CT       string `json:"ct"`
+	Path     string `json:"path"`
+	Big      int    `json:"big"` // length of an extra request header value (forces CONTINUATION frames when large)
+	ReqBody  string `json:"reqBody"`
+	RespBody string `json:"respBody"`
+	Status   int    `json:"status"`
+}
+
+type c15LiveIn struct {
+	Reqs []c15LiveReq `json:"reqs"`
+}
+
+type c15LiveOut struct {
+	Client []c15Obs `json:"client"`
+	Server []c15Obs `json:"server"`
+	Err    string   `json:"err,omitempty"`
+}
+
+// c15Live runs the requests one after the other over one real HTTP/2 (h2c) connection between
+// net/http + x/net/http2 peers on loopback, both ends wrapped by the tracer.
+func c15Live(in *c15LiveIn) c15LiveOut {
+	var out c15LiveOut
+	clientSink, serverSink := &c15Sink{}, &c15Sink{}
+	listener, err := net.Listen("tcp", "127.0.0.1:0")
+	if err != nil {
+		out.Err = "listen"
+		return out
+	}
+	byName := map[string]c15LiveReq{}
+	for _, r := range in.Reqs {
+		byName[r.Name] = r
+	}
+	handler := http.HandlerFunc(func(w http.ResponseWriter, req *http.Request) {
+		_, _ = io.Copy(io.Discard, req.Body)
+		spec := byName[req.Header.Get("X-Test-Case-Name")]
+		w.Header().Set("Content-Type", spec.CT)
+		w.WriteHeader(spec.Status)
+		_, _ = w.Write(c15Unhex(spec.RespBody))
+	})
+	server := &http.Server{Handler: h2c.NewHandler(handler, &http2.Server{MaxReadFrameSize: 16384}), ReadHeaderTimeout: 5 * time.Second}
+	go func() { _ = server.Serve(tracer.TracingHTTP2Listener(listener, serverSink)) }()
+	transport := &http2.Transport{
+		AllowHTTP:          true,
+		DisableCompression: true,
+		DialTLSContext: func(ctx context.Context, network, addr string, _ *tls.Config) (net.Conn, error) {
+			conn, err := (&net.Dialer{}).DialContext(ctx, network, addr)
+			if err != nil {
+				return nil, err
+			}
+			return tracer.TracingHTTP2Conn(conn, false, clientSink), nil
+		},
+	}
+	for _, r := range in.Reqs {
+		req, _ := http.NewRequest(http.MethodPost, "http://"+listener.Addr().String()+r.Path, bytes.NewReader(c15Unhex(r.ReqBody)))
+		req.Header.Set("Content-Type", r.CT)
+		req.Header.Set("X-Test-Case-Name", r.Name)
+		if r.Big > 0 {
+			req.Header.Set("X-Big", strings.Repeat("v", r.Big))
+		}
+		resp, err := transport.RoundTrip(req)
+		if err != nil {
+			out.Err = "roundtrip " + r.Name
+			break
+		}
+		_, _ = io.Copy(io.Discard, resp.Body)
+		_ = resp.Body.Close()
+	}
+	// everything is traced synchronously inside Read/Write; allow the server goroutine a moment
+	deadline := time.Now().Add(3 * time.Second)
+	for time.Now().Before(deadline) {
+		clientSink.mu.Lock()
+		nc := len(clientSink.got)
+		clientSink.mu.Unlock()
+		serverSink.mu.Lock()
+		ns := len(serverSink.got)
+		serverSink.mu.Unlock()
+		if nc >= len(in.Reqs) && ns >= len(in.Reqs) {
+			break
+		}
+		time.Sleep(5 * time.Millisecond)
+	}
+	clientSink.mu.Lock()
+	for _, t := range clientSink.got {
+		out.Client = append(out.Client, c15Observe(t))
+	}
+	clientSink.mu.Unlock()
+	serverSink.mu.Lock()
+	for _, t := range serverSink.got {
+		out.Server = append(out.Server, c15Observe(t))
+	}
+	serverSink.mu.Unlock()
+	transport.CloseIdleConnections()
+	_ = server.Close()
+	return out
 }
 
 // ---------------------------------------------------------------- input / output types
@@ -1010,7 +1116,8 @@ func runC15(c *gen.Ctx) error {
 
 	// ---- G2: scenario families
 	for _, sc := range c15Scenarios() {
-		g.variants(sc.frames, sc.legal, sc.tail, "scenario:"+sc.name, false)
+		g.c.E.Count("scenario:" + sc.name)
+		g.variants(sc.frames, sc.legal, sc.tail, "scenario", false)
 	}
 
 	// ---- G2b: random concurrent exchanges
@@ -1029,6 +1136,33 @@ func runC15(c *gen.Ctx) error {
 	}
 	for i := 0; i < nFuzz; i++ {
 		g.fuzz(i)
+	}
+
+	// ---- real x/net/http2 peers over loopback (ties the scripted connection to reality)
+	nLive := 2
+	if thorough {
+		nLive = 20
+	}
+	for i := 0; i < nLive; i++ {
+		var reqs []c15LiveReq
+		for k := 0; k < 2+r.Intn(3); k++ {
+			ct := gen.Pick(r, []string{"application/grpc", "application/connect+proto", "application/proto"})
+			var rb, pb []byte
+			for m := 0; m < r.Intn(3); m++ {
+				rb = append(rb, c15Msg(0, r.Bytes(r.Intn(40)))...)
+			}
+			for m := 0; m < r.Intn(3); m++ {
+				pb = append(pb, c15Msg(byte(r.Intn(2)), r.Bytes(r.Intn(40)))...)
+			}
+			big := 0
+			if k == 1 {
+				big = 20000 + r.Intn(20000) // larger than the peer's max frame size: HEADERS + CONTINUATION
+			}
+			reqs = append(reqs, c15LiveReq{Name: fmt.Sprintf("live%d", k), CT: ct, Path: gen.Pick(r, []string{"/svc.S/M", "/a/b?x=1"}), Big: big,
+				ReqBody: gen.Hex(rb), RespBody: gen.Hex(pb), Status: gen.Pick(r, []int{200, 200, 404})})
+		}
+		c.E.Count("class:live")
+		c.Do("live", c15LiveIn{Reqs: reqs})
 	}
 
 	// ---- the few scenarios that wait for retryWait (run in parallel)
